@@ -566,9 +566,10 @@ def dominated_region(body, bb):
     return {x for x, ds in body.dominators().items() if bb in ds}
 
 
-def return_variants_from(body, start_bb):
+def return_variants_from(body, start_bb, _depth=0):
     """variants of Result/Option aggregates assigned to the return place in blocks
-    reachable from start_bb"""
+    reachable from start_bb (a call of a local closure/function into the return place
+    is resolved to that callee's own return variants)"""
     out = set()
     for b in body.reachable(start_bb):
         for s in body.blocks[b]['stmts']:
@@ -583,5 +584,69 @@ def return_variants_from(body, start_bb):
             if c.matches(FROM_RESIDUAL):
                 out.add('Err')
             else:
-                out.add('call:' + (c.path or c.decl))
+                tgt = c.f.get('self_closure') or (c.path if c.f.get('local') else None)
+                cb = body.unit.body(tgt) if tgt else None
+                if cb is not None and _depth < 3:
+                    out |= return_variants_from(cb, 0, _depth + 1)
+                else:
+                    out.add('call:' + (c.path or c.decl))
     return out
+
+
+def must_pass_before(body, start, via, target):
+    """every path from block `start` to block `target` passes a block in `via`"""
+    via = set(via)
+    if start in via:
+        return True
+    return target not in body.reachable(start, avoid=via)
+
+
+def count_nots(body, sl):
+    return sum(1 for blk in body.blocks if not blk['cleanup'] for st in blk['stmts']
+               if st['p'][0] in sl.locals and st['rv']['k'] == 'un' and st['rv']['op'] == 'Not')
+
+
+def switch_targets_bool(t):
+    """(true_target, false_target) of a SwitchInt on a bool"""
+    vals, tg = t['vals'], t['tgts']
+    if vals == [0]:
+        return tg[1], tg[0]
+    if vals == [1]:
+        return tg[0], tg[1]
+    if vals == [0, 1]:
+        return tg[1], tg[0]
+    return None, None
+
+
+def field_writes(body, field, owner_suffix=None):
+    """assignments whose destination place ends in field `field`: list of (bb, stmt)"""
+    out = []
+    for bi, blk in enumerate(body.blocks):
+        if blk['cleanup']:
+            continue
+        for s in blk['stmts']:
+            fs = [e for e in s['p'][1] if isinstance(e, list) and e[0] == 'F']
+            if fs and fs[-1][2] == field and (owner_suffix is None or (len(fs[-1]) > 3 and fs[-1][3].endswith(owner_suffix))):
+                out.append((bi, s))
+    return out
+
+
+def aggregates(body, adt_suffix, variant=None):
+    """(bb, stmt) of aggregate constructions of an ADT"""
+    out = []
+    for bi, blk in enumerate(body.blocks):
+        if blk['cleanup']:
+            continue
+        for s in blk['stmts']:
+            rv = s['rv']
+            if rv['k'] == 'agg' and rv.get('ak') == 'adt' and rv['adt'].endswith(adt_suffix) and (variant is None or rv['variant'] == variant):
+                out.append((bi, s))
+    return out
+
+
+def agg_field(stmt, name):
+    rv = stmt['rv']
+    for f, o in zip(rv['fields'], rv['ops']):
+        if f == name:
+            return o
+    return None
